@@ -280,8 +280,30 @@ pub fn exec(plan: &CrashPlan) -> RunOut {
             }
             out.bump(&format!("fault.crash.{}", img.kind));
             let r = (img.req / 2) as usize;
-            let call_kind = img.at_call.split(' ').take(2).collect::<Vec<_>>().join("-");
-            out.cases.push(crate::rng::mix(&[crate::rng::tag(img.kind), crate::rng::tag(&call_kind), crate::rng::tag(kinds.get(r).copied().unwrap_or("-")), (img.req % 2) as u64, crate::rng::tag(&img.detail.split(':').next().unwrap_or("").to_string())]));
+            // distinct crash case = image kind x (VFS call, file, log2 size class, first-page?) x request
+            // kind x in-flight/acked x surviving-write pattern (counts clipped to 2)
+            let toks: Vec<&str> = img.at_call.split(' ').collect();
+            let mut call_sig = toks.iter().take(2).cloned().collect::<Vec<_>>().join("-");
+            if let Some(rng_tok) = toks.get(2) {
+                if let Some((off, len)) = rng_tok.split_once('+') {
+                    let len: u64 = len.parse().unwrap_or(0);
+                    let off: u64 = off.parse().unwrap_or(1);
+                    call_sig.push_str(&format!("-l{}-{}", 64 - len.leading_zeros(), if off == 0 { "start" } else { "later" }));
+                }
+            }
+            let mut pat = String::new();
+            for part in img.detail.split_whitespace() {
+                if let Some((f, counts)) = part.rsplit_once(':') {
+                    let file = if f.ends_with("-wal") { "wal" } else { "db" };
+                    let clipped: Vec<String> = counts.split('/').map(|c| {
+                        let digits: String = c.chars().filter(|ch| ch.is_ascii_digit()).collect();
+                        let name: String = c.chars().filter(|ch| !ch.is_ascii_digit()).collect();
+                        format!("{}{}", name, digits.parse::<u32>().unwrap_or(0).min(2))
+                    }).collect();
+                    pat.push_str(&format!("{file}:{} ", clipped.join("/")));
+                }
+            }
+            out.cases.push(crate::rng::mix(&[crate::rng::tag(img.kind), crate::rng::tag(&call_sig), crate::rng::tag(kinds.get(r).copied().unwrap_or("-")), (img.req % 2) as u64, crate::rng::tag(&pat)]));
             let vs = verify_image(&ctx, img, i, &mut out, 0);
             if !vs.is_empty() {
                 LAST_IMAGE.with(|l| l.set(Some(i as u32)));
